@@ -115,9 +115,45 @@ func c18Gen(rt *rapid.T) c18Case {
 		if rapid.IntRange(0, 4).Draw(rt, "mutate") == 0 {
 			q = c18Mutate(rt, q)
 		}
+		if rapid.IntRange(0, 39).Draw(rt, "longcond") == 21 {
+			q = c18LongCond(rt)
+		}
 		c.SQL = append(c.SQL, q)
 	}
 	return c
+}
+
+// c18LongCond: a condition of dozens of terms (the only way to write an
+// IN-list in this dialect), in every place a condition can stand.
+func c18LongCond(rt *rapid.T) string {
+	n := rapid.SampledFrom([]int{12, 30, 48, 64, 200}).Draw(rt, "nterms")
+	op := rapid.SampledFrom([]string{" OR ", " OR ", " AND ", "mixed"}).Draw(rt, "connective")
+	var sb strings.Builder
+	for i := 0; i < n; i++ {
+		if i > 0 {
+			switch {
+			case op != "mixed":
+				sb.WriteString(op)
+			case i%3 == 0:
+				sb.WriteString(" OR ")
+			default:
+				sb.WriteString(" AND ")
+			}
+		}
+		fmt.Fprintf(&sb, "a = %d", i%7)
+	}
+	cond := sb.String()
+	switch rapid.IntRange(0, 4).Draw(rt, "where") {
+	case 0:
+		return "UPDATE t0 SET d = 1 WHERE " + cond
+	case 1:
+		return "DELETE FROM t0 WHERE " + cond
+	case 2:
+		return "SELECT * FROM t0 JOIN t1 ON " + strings.ReplaceAll(cond, "a =", "t0.a =")
+	case 3:
+		return "SELECT " + cond + " FROM t0"
+	}
+	return "SELECT * FROM t0 WHERE " + cond
 }
 
 var c18TokRe = regexp.MustCompile(`'[^']*'|"[^"]*"|[\pL_][\pL\pN_]*|\d+|<=|>=|!=|[^\s\pL\pN_]`)
